@@ -56,7 +56,7 @@ def worker(rank, world, cfgfile, initfile, outfile):
     _, opt = _build(c2, vals, dc, given_params=params)
     for k in range(1, cfg["T"] + 1):
         for i, (p, (s, e)) in enumerate(zip(params, my)):
-            present = not (cfg.get("presence") == "symbolic" and not bool(vals.get(f"present_p{i}_s{k}", False)))
+            present = not (cfg.get("presence") == "symbolic" and (cfg.get("presence_params") is None or i in cfg["presence_params"]) and not bool(vals.get(f"present_p{i}_s{k}", False)))
             p.grad = _orig_vals(cfg, vals, "g", i, origs[i], k)[s:e].clone() if present else None
         opt.step()
     json.dump([p.detach().tolist() for p in params], open(outfile, "w"))
@@ -106,7 +106,7 @@ def replay(record):
             _, opt = _build(c2, vals, None, given_params=sp)
             for k in range(1, cfg["T"] + 1):
                 for (i, a, b, shp), p in zip(slabs, sp):
-                    present = not (cfg.get("presence") == "symbolic" and not bool(vals.get(f"present_p{i}_s{k}", False)))
+                    present = not (cfg.get("presence") == "symbolic" and (cfg.get("presence_params") is None or i in cfg["presence_params"]) and not bool(vals.get(f"present_p{i}_s{k}", False)))
                     p.grad = _orig_vals(cfg, vals, "g", i, origs[i], k)[a:b].reshape(shp).clone() if present else None
                 opt.step()
             exp = {}
